@@ -435,4 +435,35 @@ theorem boundsIn_text_union (P : α → Prop) (rs : List (Range α)) (t : Option
   | range _ => simp at hs
 
 end Spec
+namespace Spec
+variable {α : Type} [LinPre α]
+
+theorem rangeAllVers_map (P : α → Prop) (r' : Range {v : α // P v}) : (r'.map (subEmb P).f).AllVers P := by
+  refine ⟨?_, ?_, ?_⟩
+  · intro m hm; simp only [Range.map, Option.map_eq_some_iff] at hm; obtain ⟨x, _, rfl⟩ := hm; exact x.2
+  · intro m hm; simp only [Range.map, Option.map_eq_some_iff] at hm; obtain ⟨x, _, rfl⟩ := hm; exact x.2
+  · intro c hc; simp only [Range.map, Option.map_eq_some_iff] at hc; obtain ⟨x, _, rfl⟩ := hc; exact x.ver.2
+
+/-- the pointwise reading of `BoundsIn` -/
+theorem allVers_of_boundsIn (P : α → Prop) (s : Spec α) (h : BoundsIn P s) : s.AllVers P := by
+  obtain ⟨s', rfl⟩ := h
+  cases s' with
+  | empty => trivial
+  | any => trivial
+  | range r' => exact rangeAllVers_map P r'
+  | union rs' t' =>
+    refine ⟨?_, ?_⟩
+    · intro r hr
+      simp only [List.mem_map] at hr
+      obtain ⟨r', _, rfl⟩ := hr
+      exact rangeAllVers_map P r'
+    · intro c hc
+      simp only [Option.map_eq_some_iff] at hc
+      obtain ⟨c', _, rfl⟩ := hc
+      exact c'.ver.2
+
+theorem boundsIn_iff_allVers (P : α → Prop) (s : Spec α) : BoundsIn P s ↔ s.AllVers P :=
+  ⟨allVers_of_boundsIn P s, boundsIn_of_allVers P s⟩
+
+end Spec
 end DepLogic
